@@ -66,10 +66,10 @@ type scenario struct {
 	consDir   []bool
 	srcLocal  bool
 	dstLocal  bool
-	peering   bool // both info fields carry the Peer flag; the local hop is one of the two peering hops
-	expireSeg int  // 1+index of the segment whose local hop is expired although its MAC is valid (0: none)
+	peering   bool   // both info fields carry the Peer flag; the local hop is one of the two peering hops
+	expireSeg int    // 1+index of the segment whose local hop is expired although its MAC is valid (0: none)
 	expireAt  uint32 // if non-zero: that hop expires at this Unix time (else: long ago)
-	validated int  // absolute index of the hop validated last in this AS
+	validated int    // absolute index of the hop validated last in this AS
 }
 
 type builtPath struct {
